@@ -23,4 +23,7 @@ def assert_tree():
 
 
 def certs_dir():
-    return os.path.join(REPO, "tests", "core", "tcp", "certs")
+    d = os.path.join(REPO, "tests", "core", "tcp", "certs")
+    if not os.path.isdir(d):
+        d = "/repo/tests/core/tcp/certs"
+    return d
